@@ -228,11 +228,11 @@ def c07_generated_part(rep, tier):
     zeep = native.build_zeep()
     src = os.path.join(GEN_CRATE, 'src')
     os.makedirs(src, exist_ok=True)
-    fixture = os.path.join(VERIF, 'kani_gen/facets.xsd')
+    fixture = os.path.join(VERIF, 'smi/corpus/facets2.xsd')
     shutil.copyfile(fixture, os.path.join(GEN_CRATE, 'facets.xsd'))
     rc, out, _ = native.run_zeep(zeep, os.path.join(GEN_CRATE, 'facets.xsd'), os.path.join(src, 'generated.rs'))
     if rc != 0:
-        rep.inconc('C07(a): the native zeep fails on kani_gen/facets.xsd: ' + out[-400:])
+        rep.inconc('C07(a): the native zeep fails on smi/corpus/facets2.xsd: ' + out[-400:])
         return dict(evaluations=0, distinct_nontrivial=0)
     toml = open(os.path.join(REPO, 'zeep-lib/Cargo.toml')).read()
     deps = re.search(r'\[dependencies\](.*?)(\n\[|\Z)', toml, re.S).group(1)
@@ -242,7 +242,7 @@ def c07_generated_part(rep, tier):
     shutil.copyfile(os.path.join(REPO, 'Cargo.lock'), os.path.join(GEN_CRATE, 'Cargo.lock'))
     shutil.copyfile(os.path.join(VERIF, 'kani_gen/harness.rs'), os.path.join(src, 'harness.rs'))
     e1._write_if_changed(os.path.join(src, 'lib.rs'), '#![allow(unused, clippy::all)]\npub mod generated;\n#[cfg(kani)]\nmod harness;\n')
-    hs = re.findall(r'code_at!\((\w+),', open(os.path.join(VERIF, 'kani_gen/harness.rs')).read()) + \
+    hs = re.findall(r'(?:code_at|short_at)!\((\w+),', open(os.path.join(VERIF, 'kani_gen/harness.rs')).read()) + \
         re.findall(r'#\[kani::proof\](?:\s*#\[[^\]]*\])*\s*fn (\w+)\s*\(', open(os.path.join(VERIF, 'kani_gen/harness.rs')).read())
     hs = [h for h in hs if not h.startswith('$')]
     with Lock('kani_gen'):
@@ -263,6 +263,6 @@ def c07_generated_part(rep, tier):
             rep.violation('c07-generated/%s/%s' % (re.sub(r'_len\d+$', '', h), what), '%s: %s' % (h, what), rdir)
         else:
             rep.inconc('C07(a) %s: %s (no verdict)' % (h, r['status']))
-    return dict(evaluations=len(hs), distinct_nontrivial=nontrivial, samples=samples, fixture='kani_gen/facets.xsd',
+    return dict(evaluations=len(hs), distinct_nontrivial=nontrivial, samples=samples, fixture='smi/corpus/facets2.xsd',
                 bounds='one symbolic leaf (ASCII string of a fixed length 1..4 / two digits) per harness at depth 1-2, inside Vec and Option members and as an attribute; all other leaves valid',
                 functions_encoded=['the check_restrictions impls zeep generates for facets.xsd + helpers_content.rs restrictions module, as emitted'])
